@@ -157,7 +157,7 @@ pub fn check(c: &Case, obs: &mut Obs) -> CheckResult {
             show_bytes(buf1)
         );
     }
-    if !matches!(c.feed.ctor, Ctor::BufReader(_)) {
+    if !matches!(c.feed.ctor, Ctor::BufReader(_) | Ctor::FreshBufReader(_)) {
         let d1 = log.borrow().delivered;
         let chunk = c.feed.chunk_size();
         let bound = if need == 0 {
